@@ -6,7 +6,7 @@ out=/verif/seeded/$name
 cd "$wt" || exit 2
 export PYTHONPATH=$wt/src PYTHONDONTWRITEBYTECODE=1
 # make sure the change is applied in the worktree and equals patch.diff
-git stash -q 2>/dev/null; git checkout -q -- . ; git apply out/patch.diff || { echo "patch.diff does not apply to HEAD"; exit 2; }
+git checkout -q -- . ; git apply out/patch.diff || { echo "patch.diff does not apply to HEAD"; exit 2; }
 files=$(git diff --name-only | tr '\n' ' ')
 echo "changed files: $files"
 case "$files" in *tests/*) echo "touches tests"; exit 2;; esac
